@@ -153,6 +153,74 @@ def s_dictcomp(fn, seq):
     return dict(fn(*e) for e in seq)
 
 
+class BList:
+    """A list built row by row: `rows` complete rows of `ncols` entries followed by `partial` entries
+    of the next row; entry (t, i) is elem2(t, i).  Flat positions are never computed (that would be
+    the nonlinear t*ncols+i): row boundaries are the ghost offsets off(t) with off(0) = 0 and
+    off(t+1) = off(t) + ncols, and a slice [off(t) : off(t)+ncols] is row t."""
+
+    def __init__(self, rows, ncols, partial, elem2, name=None):
+        self.rows, self.ncols, self.partial = num(rows), num(ncols), num(partial)
+        self.elem2, self.name = elem2, name
+
+    @staticmethod
+    def off(t, ncols):
+        import z3
+        t = num(t)
+        if t.concrete and t.t == 0:
+            return Num(0)
+        f = z3.Function("row_offset", z3.IntSort(), z3.IntSort())
+        run = engine()
+        v = Num(f(t.z()))
+        # ghost unfolding instances (off(0) = 0, off(t+1) = off(t) + ncols)
+        run.assume(Num(f(z3.IntVal(0))) == 0)
+        run.assume(Num(f((t + 1).z())) == v + ncols)
+        run.assume((t >= 1).implies(v == Num(f((t - 1).z())) + ncols))
+        return v
+
+    def append(self, v):
+        from .opaque import Cond
+        r, p, old = self.rows, self.partial, self.elem2
+
+        def e2(t, i, r=r, p=p, old=old, v=v):
+            c = (num(t) == r) & (num(i) == p)
+            if c.concrete:
+                return v if c.t else old(t, i)
+            return Cond([(c, v), (~c, old(t, i))])
+        self.elem2 = e2
+        self.partial = p + 1
+
+    def in_domain(self, t, i):
+        t, i = num(t), num(i)
+        return (t >= 0) & (i >= 0) & (((t < self.rows) & (i < self.ncols)) | ((t == self.rows) & (i < self.partial)))
+
+    def __getitem__(self, key):
+        if isinstance(key, slice) and key.step is None and key.start is not None and key.stop is not None:
+            import z3
+            a, b = num(key.start), num(key.stop)
+            run = engine()
+            t = sym.fresh_int("row")
+            # the slice must be exactly one complete row: start = off(t), stop = off(t+1), t < rows
+            # (t is determined by the start term when it is a row offset)
+            st = a.t if not a.concrete else None
+            if st is not None and z3.is_app(st) and st.decl().name() == "row_offset":
+                t = Num(st.arg(0))
+            elif a.concrete and a.t == 0:
+                t = Num(0)
+            else:
+                raise Undecided("slice of a row-structured list that does not start at a row boundary")
+            run.oblige("row-slice-is-one-complete-row", (b == BList.off(t + 1, self.ncols)) & (t >= 0) & (t < self.rows), kind="call-pre",
+                       cls="input", meta={"list": self.name})
+            return SList(self.ncols, lambda i, t=t: self.elem2(t, i), name="row")
+        raise Undecided("indexing a row-structured list")
+
+    def havoc(self, base):
+        raise Undecided("havoc of a row-structured list")
+
+    def __format__(self, spec):
+        return "<list>"
+
+
 class Rec:
     """Plain record (attribute bag) used for configuration objects handed in as inputs."""
 
@@ -278,6 +346,8 @@ def s_str(x=""):
 
 
 def s_list(x=()):
+    if isinstance(x, BList):
+        return x
     if isinstance(x, SRange):
         return SList(x.length, x.elem_fn, name="list(range)")
     if isinstance(x, SList):
